@@ -146,6 +146,8 @@ def subject(case):
     out['eager_nsmap'] = [sorted((k, v) for k, v in eager.get_nsmap(e).items() if k not in ('t',)) for e in eager.iter()]
     out['eager_depth1'] = [e.tag for e in eager.root]
     out['eager_find'] = [e.attrib.get('n') for e in eager.iterfind('t:s/t:item', namespaces={'t': 'urn:z'})]
+    out['eager_find1'] = [len(e) for e in eager.iterfind('t:s', namespaces={'t': 'urn:z'})]
+    out['eager_path_errors'] = err_list(s.iter_errors(xmlschema.XMLResource(xml), path='t:s', namespaces={'t': 'urn:z'}))
     out['lazy'] = {}
     for depth in case['depths']:
         for thin in (True, False):
@@ -172,6 +174,10 @@ def subject(case):
                 r['chunk_nsmap'] = chunk_ns
                 res = xmlschema.XMLResource(xml, lazy=depth, thin_lazy=thin)
                 r['find'] = [e.attrib.get('n') for e in res.iterfind('t:s/t:item', namespaces={'t': 'urn:z'})]
+                res = xmlschema.XMLResource(xml, lazy=depth, thin_lazy=thin)
+                r['find1'] = [len(e) for e in res.iterfind('t:s', namespaces={'t': 'urn:z'})] if depth == 1 else None
+                r['path_errors'] = err_list(s.iter_errors(xmlschema.XMLResource(xml, lazy=depth, thin_lazy=thin), path='t:s',
+                                                          namespaces={'t': 'urn:z'})) if depth == 1 else None
             except Exception as e:  # noqa
                 r['exc'] = common.exc_class(e) + ': ' + str(e)[:100]
             out['lazy']['%s/%s' % (depth, 'thin' if thin else 'full')] = r
@@ -257,6 +263,10 @@ def evaluate(ctx, cases):
                 sink.append('lazy=%s iter_depth() chunks %s, children of the loaded root %s' % (cfg, r['depth_chunks'][:5], o['eager_depth1'][:5]))
             if claimed and r['chunk_nsmap'] != o['eager_nsmap'][1:]:
                 sink.append('lazy=%s in-scope namespaces inside the chunks differ from the loaded tree' % cfg)
+            if claimed and r['find1'] != o['eager_find1']:
+                sink.append('lazy=%s iterfind(t:s) gives %d chunks, loaded tree %d' % (cfg, len(r['find1']), len(o['eager_find1'])))
+            if claimed and r['path_errors'] != o['eager_path_errors']:
+                sink.append('lazy=%s iter_errors(path=t:s) gives %s, loaded tree %s' % (cfg, r['path_errors'][:3], o['eager_path_errors'][:3]))
             if r['find'] != o['eager_find']:
                 sink.append('lazy=%s iterfind(t:s/t:item) gives %d items, loaded tree %d' % (cfg, len(r['find']), len(o['eager_find'])))
         if explored:
